@@ -335,10 +335,16 @@ fn emit_fn(
     let in_trait_impl = matches!(vis, syn::Visibility::Inherited) && selector.contains("impl ") && KEEP_TRAIT.with(|k| k.get());
     let mut sig = sig.clone();
     let mut block = block.clone();
-    if STUB.with(|k| k.get()) {
-        // auto-stub: signature only
+    if STUB.with(|k| k.get()) || external_body {
+        // auto-stub / the original next to its canary copy: signature (and contract) only. An external_body body is
+        // still compiled by rustc, and Verus-only syntax in it (`for x in it: e`, proof blocks) does not compile there.
         block = syn::parse_quote!({ unimplemented!() });
     }
+    // a stubbed body keeps the contract's @spec / @attr / @result, not its body-level sections
+    let stub_contract: Option<ItemContract> = if STUB.with(|k| k.get()) || external_body {
+        contract.map(|c| ItemContract { result: c.result.clone(), attrs: c.attrs.clone(), spec: c.spec.clone(), nocanary: c.nocanary, line: c.line, ..Default::default() })
+    } else { None };
+    let contract: Option<&ItemContract> = if stub_contract.is_some() { stub_contract.as_ref() } else { contract };
     let mut attrs: Vec<syn::Attribute> = attrs.to_vec();
     rules::filter_attrs(&mut attrs, cfg, false, fired);
 
@@ -349,6 +355,27 @@ fn emit_fn(
         *fired.entry("R-hoist".into()).or_insert(0) += 1;
     }
 
+    // statement-ordinal anchors count the top-level statements of the repository's own text
+    {
+        let empty0 = ItemContract::default();
+        let c0 = contract.unwrap_or(&empty0);
+        let mut sa: Vec<(usize, usize)> = c0.inserts.iter().enumerate().filter_map(|(i, (a, _))| if let Anchor::StmtAfter(k) = a { Some((*k, i)) } else { None }).collect();
+        sa.sort();
+        sa.reverse();
+        for (k, i) in sa {
+            if k >= block.stmts.len() {
+                die(&format!("{}: @insert stmt {} after: the body has {} statements (lost anchor)", selector, k, block.stmts.len()));
+            }
+            // a tail expression has no statement position after it
+            if k == block.stmts.len() - 1 && matches!(block.stmts[k], Stmt::Expr(_, None)) && !matches!(sig.output, syn::ReturnType::Default) {
+                die(&format!("{}: @insert stmt {} after: statement {} is the tail expression (lost anchor)", selector, k, k));
+            }
+            if let Stmt::Expr(_, semi @ None) = &mut block.stmts[k] {
+                if !matches!(sig.output, syn::ReturnType::Default) || k + 1 < 1 { } else { *semi = None; }
+            }
+            block.stmts.insert(k + 1, rules::quote_marker(i));
+        }
+    }
     // snippet anchors are matched against the repository's own text (before any rewrite rule)
     {
         let empty0 = ItemContract::default();
@@ -576,7 +603,7 @@ fn emit_fn(
                     die(&format!("{}: @insert loop {} before/after: no such loop statement (lost anchor)", selector, k));
                 }
             }
-            Anchor::After(_, _) | Anchor::Before(_, _) | Anchor::Chain(_) => {}
+            Anchor::After(_, _) | Anchor::Before(_, _) | Anchor::Chain(_) | Anchor::StmtAfter(_) => {}
         }
     }
 
@@ -882,11 +909,26 @@ pub fn emit_group(
                 let mut rw = rules::Rewriter { cfg, fired: &mut fired2, tmp: 0, self_err: None };
                 rw.visit_type_mut(&mut hdr_ty);
             }
+            // R-inherent with generics that only the trait mentions (`impl<P: Bound> Trait<P> for T`): an inherent
+            // `impl<P> T` would leave P unconstrained, so the parameters move onto every method
+            let mut moved_generics: Option<syn::Generics> = None;
             let head = match (&header.trait_, keep_trait) {
                 (Some((_, p, _)), true) => quote!(impl #generics #p for #hdr_ty #where_c),
                 (Some(_), false) => {
                     *fired.entry("R-inherent".into()).or_insert(0) += 1;
-                    quote!(impl #generics #hdr_ty #where_c)
+                    let ty_txt = hdr_ty.to_token_stream().to_string();
+                    let unconstrained = !header.generics.params.is_empty()
+                        && header.generics.params.iter().all(|gp| match gp {
+                            syn::GenericParam::Type(tp) => !ty_txt.split(|c: char| !c.is_alphanumeric() && c != '_').any(|w| tp.ident == w),
+                            _ => false,
+                        });
+                    if unconstrained {
+                        moved_generics = Some(header.generics.clone());
+                        *fired.entry("R-inherent-generics".into()).or_insert(0) += 1;
+                        quote!(impl #hdr_ty)
+                    } else {
+                        quote!(impl #generics #hdr_ty #where_c)
+                    }
                 }
                 (None, _) => quote!(impl #generics #hdr_ty #where_c),
             };
@@ -925,9 +967,21 @@ pub fn emit_group(
                 } else {
                     m.vis.clone()
                 };
-                emit_fn(&sel, &m.attrs, &vis, &m.sig, &m.block, self_err.clone(), rel, cfg, c, pr, fired, false, canaries || stub);
-                if canaries && !c.map(|c| c.nocanary).unwrap_or(false) {
-                    emit_fn(&sel, &m.attrs, &vis, &m.sig, &m.block, self_err.clone(), rel, cfg, c, pr, fired, true, false);
+                let mut msig = m.sig.clone();
+                if let Some(g) = &moved_generics {
+                    let mut params = g.params.clone();
+                    for gp in msig.generics.params.iter() { params.push(gp.clone()); }
+                    msig.generics.params = params;
+                    if msig.generics.lt_token.is_none() { msig.generics.lt_token = Some(Default::default()); msig.generics.gt_token = Some(Default::default()); }
+                    if let Some(w) = &g.where_clause {
+                        let mw = msig.generics.make_where_clause();
+                        for pr_ in w.predicates.iter() { mw.predicates.push(pr_.clone()); }
+                    }
+                }
+                emit_fn(&sel, &m.attrs, &vis, &msig, &m.block, self_err.clone(), rel, cfg, c, pr, fired, false, canaries || stub);
+                // (a kept trait impl cannot hold an extra method: no canary copy there)
+                if canaries && !keep_trait && !c.map(|c| c.nocanary).unwrap_or(false) {
+                    emit_fn(&sel, &m.attrs, &vis, &msig, &m.block, self_err.clone(), rel, cfg, c, pr, fired, true, false);
                 }
             }
             pr.raw_line("}", "code");
